@@ -136,6 +136,24 @@ def _t_pd_span(d):
     return ('result', ['pd_span', sec], ('pd_span', (sec,), {}))
 
 
+def _t_pd_asis(a, b=0):
+    # (only integers are ever sent as conforming values: what pydantic's lax mode would convert is not probed)
+    if not all(isinstance(v, int) and not isinstance(v, bool) for v in (a, b)):
+        return ('invalid', None, None)
+    return ('result', ['pd_asis', a, b], ('pd_asis', (a, b), {}))
+
+
+def _t_rpc_ping(a=0): return ('result', ['rpc.ping', a], ('rpc.ping', (a,), {}))
+
+
+def _t_js_ref(a, b=None):
+    if not (isinstance(a, int) and not isinstance(a, bool) and a >= 0):
+        return ('invalid', None, None)
+    if b is not None and not (isinstance(b, dict) and isinstance(b.get('t', ''), str)):
+        return ('invalid', None, None)
+    return ('result', ['js_ref', a, b], ('js_ref', (a, b), {}))
+
+
 def _t_js_list(items):
     if not (isinstance(items, list) and all(isinstance(x, str) for x in items)):
         return ('invalid', None, None)
@@ -162,7 +180,7 @@ TWINS = {
     'typedctor': _t_typedctor, 'raiselib': _t_raiselib, 'pd_pos': _t_pd_pos, '_under': _t_under, 'ns._dotted': _t_dotted,
     'cowrapped': _t_cowrapped, 'js_draft4': _t_js_draft4, 'window': _t_window, 'mutate': _t_mutate, 'broken.vm': _t_broken,
     'odd_defaults': _t_odd_defaults, 'tc_only': _t_tc_only, 'pd_strip': _t_pd_strip, 'view.cm': _t_cm, 'view.sm': _t_sm, 'view.note': _t_note, 'cnt.bump': _t_bump,
-    'pd_even': _t_pd_even, 'pd_span': _t_pd_span, 'js_list': _t_js_list, 'ctxm_plain': _t_ctxm_plain,
+    'pd_even': _t_pd_even, 'pd_span': _t_pd_span, 'pd_asis': _t_pd_asis, 'js_ref': _t_js_ref, 'rpc.ping': _t_rpc_ping, 'js_list': _t_js_list, 'ctxm_plain': _t_ctxm_plain,
 }
 
 
